@@ -22,7 +22,15 @@ def _alarm(*a):
     raise Timeout()
 
 # ------------------------------------------------------------------ abstract elections and their BLT rendering
+ODD_NAMES = ['100%% %s', '%s %%s', '%%(%s)s', '{%s}', '%s%%', "%s'q", '%s \\n', '%%d %s', '%s %%']
 def gen_election(rng, family=None, maxc=7, maxb=9):
+    """an abstract election; one in twelve has candidate names with characters that mean something to a formatter"""
+    e = _gen_election(rng, family, maxc, maxb)
+    if rng.random() < 0.08:
+        e['names'] = [rng.choice(ODD_NAMES) % nm for nm in e['names']]
+    return e
+
+def _gen_election(rng, family=None, maxc=7, maxb=9):
     """e = dict(n, s, wd, und, tie, lines=[(m, ranking)], eq=[(m, [[cids]..])], names)"""
     family = family or rng.choice(['small', 'small', 'tie', 'tie', 'nearquota', 'chain', 'starved', 'withdrawn', 'bigmult', 'mid', 'cross', 'coalition'])
     if family == 'cross': return gen_scot_cross(rng) if rng.random() < 0.6 else gen_scot_tie3(rng)
